@@ -384,7 +384,7 @@ pub fn get_repeated_file_path_from_diff_line(line: &str) -> Option<String> {
 }
 
 fn remove_surrounding_quotes(path: &str) -> &str {
-    if path.starts_with('"') && path.ends_with('"') {
+    if path.len() >= 2 && path.starts_with('"') && path.ends_with('"') {
         // Indexing into the UTF-8 string is safe because of the previous test
         &path[1..path.len() - 1]
     } else {
